@@ -207,7 +207,7 @@ fn real_window_go<T: Transport>(ctx: &mut Ctx, t: T, g: &Geo, st: &St, few: bool
 fn real_window(ctx: &mut Ctx, g: Geo, wrapped: bool, few: bool) {
     let st: St = Rc::new(RefCell::new(DevState::new(vec![0u8; g.len as usize], ctx.rng.next() as u32, g.gen_bits(), if g.tk == 0 { 1 } else { 2 }, 18, VERSION_1)));
     let Some(tp) = make(&g, &st, wrapped) else { ctx.tr.comment(&format!("C13-input: no transport for {:?}", g)); ctx.tr.line(1399, &[], &[0]); return };
-    match tp { Tp::M(t) => real_window_go(ctx, t, &g, &st, few), Tp::P(t) => real_window_go(ctx, t, &g, &st, few), Tp::S(t) => real_window_go(ctx, t, &g, &st, few) }
+    match tp { Tp::M(t) => real_window_go(ctx, t, &g, &st, few), Tp::P(t) => real_window_go(ctx, t, &g, &st, few), Tp::S(t) => real_window_go(ctx, t, &g, &st, few), Tp::H(t) => real_window_go(ctx, t, &g, &st, few) }
 }
 
 // ---------------------------------------------------------------- tearing (observation)
@@ -262,7 +262,7 @@ fn torn_case(ctx: &mut Ctx, tk: u8, q: Query, size_a: u8, size_b: u8, slot: usiz
     let mut sched: Vec<Vec<Vec<u8>>> = vec![vec![]; slot]; sched.push(vec![imgb]);
     let st: St = Rc::new(RefCell::new(DevState::new(cfg.clone(), gen0, g.gen_bits(), 2, 18, VERSION_1)));
     let Some(tp) = make(&g, &st, false) else { ctx.tr.line(1399, &[], &[0]); return };
-    match tp { Tp::M(t) => torn_go(ctx, t, &g, &st, &q, &cfg, gen0, &sched), Tp::P(t) => torn_go(ctx, t, &g, &st, &q, &cfg, gen0, &sched), Tp::S(t) => torn_go(ctx, t, &g, &st, &q, &cfg, gen0, &sched) }
+    match tp { Tp::M(t) => torn_go(ctx, t, &g, &st, &q, &cfg, gen0, &sched), Tp::P(t) => torn_go(ctx, t, &g, &st, &q, &cfg, gen0, &sched), Tp::S(t) => torn_go(ctx, t, &g, &st, &q, &cfg, gen0, &sched), Tp::H(t) => torn_go(ctx, t, &g, &st, &q, &cfg, gen0, &sched) }
 }
 fn torn_scenarios(ctx: &mut Ctx) {
     for tk in [1u8, 2] {
